@@ -58,10 +58,11 @@ func solveAll(results []*FuncResult, quickMs, fullMs int) {
 			}
 		}
 	}
-	if len(retry) == 0 || len(retry) > 40 || os.Getenv("GVC_SURVEY") != "" {
+	// (more than a dozen undecided obligations is not timing noise; re-trying them only delays the report)
+	if len(retry) == 0 || len(retry) > 12 || os.Getenv("GVC_SURVEY") != "" {
 		return
 	}
-	sem2 := make(chan struct{}, 4)
+	sem2 := make(chan struct{}, 6)
 	var wg2 sync.WaitGroup
 	for _, o := range retry {
 		wg2.Add(1)
@@ -115,7 +116,7 @@ func main() {
 		if !re.MatchString(name) {
 			continue
 		}
-		sp := P.specs[specKeyOf(fn)]
+		sp := P.bodySpecOf(fn)
 		if *onlySpec && sp == nil {
 			continue
 		}
